@@ -158,3 +158,17 @@ Example C12_mixed_nonvacuous :
   = [OReq RejectEcho false; OResp false; OResp true; OResp true; OReq RejectReplay false;
      OReq RejectInvalid false; OReq Accept true; OReq RejectReplay false].
 Proof. vm_compute. reflexivity. Qed.
+
+(* ---- round 7: persisting the window (clean stop) and reloading it (ReplayWindow.persist / initialize_from_persisted, Model/C12Persist.v)
+   is the identity on the context, at any point of any history: same outcomes, same final window; an uninitialised window stays
+   uninitialised, so C12_uninitialised_never_accepts_without_echo carries over the restart (seed C12d) *)
+From Verif Require Import Model.C12Persist Proofs.C12Persist.
+Theorem C12_reload_is_identity : forall c, CtxInv c -> reload c = c.
+Proof. exact (fun c H => reload_id c (CtxInv_sized c H)). Qed.
+Print Assumptions C12_reload_is_identity.
+Theorem C12_reload_anywhere_changes_nothing : forall rs k c, Forall (fun r => 0 <= seqno r) rs -> CtxInv c -> run_reload c k rs = run c rs.
+Proof. exact run_reload_is_run. Qed.
+Print Assumptions C12_reload_anywhere_changes_nothing.
+Theorem C12_reload_stays_uninitialised : forall c, window c = None -> window (reload c) = None.
+Proof. exact reload_stays_uninitialised. Qed.
+Print Assumptions C12_reload_stays_uninitialised.
